@@ -56,7 +56,7 @@ def run(tier, rep):
     o = json.load(open(out))
     rep.add(evaluations=o["lattice"] + o["runs"], traces_validated_against_impl=o["lattice"], distinct_nontrivial=o["lattice"] + o["runs"],
             rule="lattice rows of the TLC table (all distinct); sampled runs per (integrator configuration, system)", exhaustive=False)
-    rep.cov.update({"lattice_rows": o["lattice"], "sampled_runs": o["runs"], "observed_decades": o["observed"], "momentum_probes": o.get("probes", 0), "momentum_probe_worst": o.get("probe_worst"), "encounter_energy": o.get("encounter_energy"),
+    rep.cov.update({"lattice_rows": o["lattice"], "sampled_runs": o["runs"], "observed_decades": o["observed"], "momentum_probes": o.get("probes", 0), "momentum_probe_worst": o.get("probe_worst"), "encounter_energy": o.get("encounter_energy"), "merger_worst_dP": o.get("merger_worst_dP"),
                     "decided_elsewhere": "(ii) ./check C02, (iii) ./check C13 clause MassMomentumCOM, (iv) ./check C09 clause Balanced"})
     rep.sample({"kind": "lattice row", "row": rows[3]})
     for v in o["violations"]:
